@@ -30,7 +30,8 @@ claim('C11', 'table agreement: precedence/category/associativity tables, reducti
       'The shape of the parse-stack handling beyond the comparator is not decided.',
       'DESIGN.md §3 C11')
 claim('C04', 'sibling cross-check of the folding functions + integer operation audit (typed HIR)',
-      'Decides three structural necessary conditions of "compile-time evaluation agrees with run time and never crashes": every numeric arm of ValueObj::try_<op> applies <op>; '
+      'Decides structural necessary conditions of "compile-time evaluation agrees with run time and never crashes": every numeric arm of ValueObj::try_<op> applies <op>, '
+      'with its operands in the order of the pattern (every alternative of an or-pattern); '
       'Context::eval_bin dispatches OpKind::X to try_x; no trapping or truncating integer operation in those arms (each instance reported, the 51 present today are known findings).',
       'Float rounding and non-arithmetic constant expressions are not decided. Operand types come from rustc typeck.',
       'DESIGN.md §3 C04')
@@ -39,8 +40,9 @@ claim('C21', 'coupled-state rule over every ModuleGraph method (who writes `grap
       'and cycle refusal: the only edge writer is inc_ref, behind `referrer == depends_on` and a transitive deep_depends_on(depends_on, referrer) test that no conjunct weakens.',
       'Query answers and topological order over operation histories are not decided.',
       'DESIGN.md §3 C21')
-claim('C31', 'structural rule on the ParentDir arm of cheap_canonicalize_path',
-      'Decides the clause "never discards leading parent-directory components" as a necessary condition: the ParentDir arm must be able to emit the component.',
+claim('C31', 'structural rule on the ParentDir arm(s) of cheap_canonicalize_path; reachability of pop by last-component case, or coupled-state rule on a component counter',
+      'Decides the clause "never discards leading parent-directory components" as necessary conditions: a ParentDir arm must be able to emit the component, and a pop happens only when '
+      'the last accumulated component is a normal one (by matching on it, or by a counter incremented / decremented exactly with the pushes / pops of normal components).',
       'Idempotence is not decided; an unrecognised recording idiom is ANCHOR-LOST, not a violation.',
       'DESIGN.md §3 C31')
 claim('C22', 'visitor completeness (type graph of hir x origin-to-visit dataflow in SideEffectChecker::check_expr)',
@@ -54,12 +56,12 @@ claim('C23', 'visitor completeness over OwnershipChecker::check_expr',
       'DESIGN.md §3 C23')
 claim('C12', 'dominance of erasure by purity+no-referrer tests; visitor completeness and callee classification of the purity test',
       'Decides the clause "dropping unused definitions never removes a side effect" structurally: every erasure site is guarded by referrers.is_empty() && is_pure(expr), '
-      'opt level 0 bypasses the optimiser, and SideEffectChecker::is_impure is conservative on every hir::Expr variant and classifies calls by callee.',
+      'opt level 0 bypasses the optimiser, and SideEffectChecker::is_impure is conservative on every hir::Expr variant — arm by arm and branch by branch — and classifies calls by callee.',
       'Equality of output across optimisation levels for whole programs is a run-time fact and is not decided.',
       'DESIGN.md §3 C12')
 
 claim('C25', 'table agreement Rust<->Python (ADT discriminants, typed HIR, python ast) + I/O discipline rules',
-      'Decides the framing clauses: instruction tables and 1+2+n big-endian header agree on both sides, both sides use exact-length I/O, and the size field equals the payload '
+      'Decides the framing clauses: instruction tables and 1+2+n big-endian unsigned header agree on both sides (int.to_bytes / from_bytes or struct formats), both sides use exact-length I/O, and the size field equals the payload '
       '(two instances of the last are known findings).',
       'The correspondence between inputs and results of DummyVM::eval over histories is not decided.',
       'DESIGN.md §3 C25')
@@ -68,26 +70,30 @@ claim('C27', 'declaration-table scan of lib/pystd/**/*.d.er against dir(module) 
       'Trusts the frozen dir() tables in ref/ (re-dumped live in the thorough tier) and the typeshed copy shipped in the tooling venv; nested class members are not checked.',
       'DESIGN.md §3 C27')
 
-claim('C01', 'integer-cast audit of the marshalling writers + structural rule on the constant-pool predicate',
-      'Decides the clause "holds for every literal value, including naturals of 2**31 and above and signed zeros": constant marshalling is width-preserving and the '
-      'constant pool never merges float constants by IEEE equality.',
+claim('C01', 'integer-cast audit of the marshalling writers and of the constant-pool equality; structural rule on the constant-pool predicate; sign abstraction of the declared operator table',
+      'Decides the clause "holds for every literal value, including naturals of 2**31 and above and signed zeros": constant marshalling is width-preserving, the '
+      'constant pool never merges float constants by IEEE equality nor integers through a lossy cast, and (R3) the class a numeric result is wrapped in can hold every result of the operator.',
       'The semantics of emitted operators, loops and functions are run-time facts and are not decided. Cast types come from rustc typeck.',
       'DESIGN.md §3 C01')
 claim('C15', 'writer/reader sibling cross-check (ordered field, version, encoding lists), marshal type-code table, reader panic audit',
       'Decides: code-object layout agreement between CodeObj::into_bytes and from_bytes per version, fast-local kind agreement, DataTypePrefix == marshal.c codes, '
-      'no lossy width in the writers, and lists every panicking operation of the reader on input-derived data (12 known findings: the reader is not total).',
+      'no lossy width in the writers, normalized TYPE_LONG digit counts (R6: count = ceil(bits/15) for every bit length), and lists every panicking operation of the reader on '
+      'input-derived data (12 known findings: the reader is not total).',
       'Value equality after marshal.loads of strings/tuples is not decided. The marshal code table is frozen and cross-checked against marshal.dumps in the thorough tier.',
       'DESIGN.md §3 C15')
 
 claim('C13', 'per-version specialisation of the code generator (abstract interpretation over typed HIR) against dis.opmap; jump-unit rules; argument-flow rule for --py-command',
       'Decides: (R1) every opcode that can reach write_instr in code reachable under target 3.v is an opcode of CPython 3.v (v = 7..11, 500+ site x version obligations); '
-      '(R3) jump operands are converted to the unit of the target (bytes <= 3.9, instructions >= 3.10); (R2) the interpreter chosen by --py-command reaches the spawn.',
+      '(R3) jump operands are converted to the unit of the target (bytes <= 3.9, instructions >= 3.10); (R2) the interpreter chosen by --py-command reaches the spawn; '
+      '(R4, shared with C14-R5) the load form / call form pairing of method calls does not differ between targets.',
       'That the emitted sequence computes the same result on every version is a run-time fact and is not decided. Three same-number aliases are frozen with reasons in sa/props/c13.py.',
       'DESIGN.md §3 C13')
-claim('C14', 'abstract interpretation of the code generator per target version over (code-length parity, bytes since last opcode) with summaries; who-may-write rule',
+claim('C14', 'abstract interpretation of the code generator per target version over (code-length parity, bytes since last opcode) with summaries; who-may-write rule; operand index-space typing; path enumeration of the call protocol; upper-bound analysis of the line-table writers; K5 cast audit; closure-tuple agreement',
       'Decides instruction alignment of everything the generator emits (so that every recorded lasti / patched jump target is an instruction boundary), the 3.11 inline-cache '
-      'sizes against CPython\'s _inline_cache_entries, and single ownership of the code array and of the stack accounting fields.',
-      'Does not decide that stacksize bounds the real operand depth, that constant/name/local indices are in range, jump target values, or the line table.',
+      'sizes against CPython\'s _inline_cache_entries, single ownership of the code array and of the stack accounting fields, the index space of every operand (R4), the pairing of '
+      'the load form and the call form of method calls over 64 truth assignments (R5), the arithmetic of the line table (R6: bounded bytes, no trapping conversion, conserved totals; '
+      'R7: table format per target — 2 known findings), operand width (R8), the closure tuple against the inner co_freevars (R9) and pass-through capture (R10: known finding).',
+      'Does not decide that stacksize bounds the real operand depth, nor jump target values.',
       'DESIGN.md §3 C14')
 
 claim('C08', 'typestate analysis of impl Lexer over structured HIR (characters known available; consumed vs appended characters; units of column arithmetic; indent/dedent pairing)',
@@ -102,7 +108,8 @@ claim('C24', 'shares the lexer column rules (consumed vs appended characters per
       'That a location covers the construct it names and that rendering never crashes are not decided (format_context\'s unchecked `ln_end - ln_begin` is listed as undecided).',
       'DESIGN.md §3 C24')
 claim('C28', 'structural rules on els::util::pos_to_byte_index and FileCache::incremental_update; coupled-state rule cache text / VFS',
-      'Decides five necessary conditions of document synchronisation: UTF-16 column units, char-boundary results, line clamp, full-text changes, cache and VFS updated together.',
+      'Decides necessary conditions of document synchronisation: UTF-16 column units, char-boundary results, line clamp, full-text changes, cache and VFS updated together, offsets '
+      'computed in the working text, and no fallible step between a didChange notification and the update of the cached copy.',
       'Equality of the documents over arbitrary edit histories is not decided.',
       'DESIGN.md §3 C28')
 
